@@ -47,6 +47,7 @@ class Check:
         self.analysed_fns = set()
         self.nontrivial = set()
         self.configs = []
+        self.extra = {}
 
     # ---- bookkeeping
     def rule(self, rid, desc):
@@ -164,6 +165,7 @@ class Check:
                 "known_findings_reproduced": [v["key"] for v, _ in known_hit],
                 "trusted_base": self.trusted,
                 "exhaustive": True,
+                **self.extra,
             },
             "assumptions": self.assumptions,
             "wall_s": round(time.time() - self.t0, 2),
